@@ -14,7 +14,6 @@ use serde::Deserialize;
 use serde::Serialize;
 use time::format_description::well_known::Rfc3339;
 use time::OffsetDateTime;
-use time::UtcOffset;
 
 use crate::error::Error;
 use crate::error::Result;
@@ -33,9 +32,10 @@ impl Timestamp {
   pub fn parse(input: &str) -> Result<Self> {
     let offset_date_time = OffsetDateTime::parse(input, &Rfc3339)
       .map_err(time::Error::from)
-      .map_err(Error::InvalidTimestamp)?
-      .to_offset(UtcOffset::UTC);
-    Ok(Timestamp(truncate_fractional_seconds(offset_date_time)))
+      .map_err(Error::InvalidTimestamp)?;
+    // Normalising to UTC can move the instant outside of the years 0000AD - 9999AD
+    // (e.g. `9999-12-31T23:59:59-00:01`); reject those instead of panicking here or in to_rfc3339().
+    Self::from_unix(offset_date_time.unix_timestamp())
   }
 
   /// Creates a new `Timestamp` with the current date and time, normalized to UTC+00:00 with
